@@ -69,7 +69,13 @@ ADDRESSINGS = [
     ("no-url", "absolute"),             # loadFile(file), the file has no name: the resource has no URL
     ("empty-url-argument", "absolute"),  # loadFile(file, "")
     ("pseudo-file-name", "absolute"),   # loadFile(file), file.name == "<stdin>": no URL either
+    # wave 6: every resource (main and included) goes through the loader's OWN openResource - bytes from a URL stream,
+    # decoded and wrapped by ZConfig - and every resource begins with REAL_OPEN_PAD (blank / whitespace-only lines),
+    # so a resource that is re-written on its way in (stripped, re-split, normalised) reports other line numbers
+    ("load-url-real-open", "relative"),
 ]
+REAL_OPEN_PAD = "\n \t\n"
+REAL_OPEN_SHIFT = 2
 DEFAULT_ADDR = ADDRESSINGS[0]
 URLLESS = ("no-url", "empty-url-argument", "pseudo-file-name")
 SHAPE_ADDRESSINGS = {"quick": [("url-argument", "relative"), ("no-url", "absolute")],   # the two classes a parser
@@ -94,7 +100,17 @@ def load_addressed(sch, files, addr):
     try:
         ld = H.mem_loader(sch, files)
         text = files[MAIN]
-        if how == "load-url":
+        if how == "load-url-real-open":
+            padded = {u: REAL_OPEN_PAD + t for u, t in files.items()}
+            ld = H.mem_loader(sch, padded, real_open=True)
+            try:
+                cfg, h = ld.loadURL(MAIN)
+            except ZConfig.ConfigurationError as e:
+                # harness-side: express the position in the lines of the unpadded resource again
+                if isinstance(getattr(e, "lineno", None), int) and e.lineno > 0:
+                    e.lineno -= REAL_OPEN_SHIFT
+                raise
+        elif how == "load-url":
             cfg, h = ld.loadURL(MAIN)
         elif how == "file-name":
             f = _NamedIO(text)
